@@ -489,4 +489,153 @@ theorem switches_roundtrip (s : BSplit) (h : SplitOK s) : ∀ (n j : Nat) (c : B
       rw [hc, hb, r2, zip_drop s h (j + 1) hj]
       simp
 
+/-! ### the block encoder before a symbol -/
+
+/-- symbols the category can still emit: `rem` in the current block `j` and all later blocks -/
+def budget (s : BSplit) (j rem : Nat) : Nat := rem + (s.lengths.drop (j + 1)).sum
+
+/-- the block types of the symbols the category can still emit (one entry per symbol) -/
+def remTypes (s : BSplit) (j rem : Nat) : List Nat :=
+  List.replicate rem (s.types.getD j 0) ++
+    ((s.types.zip s.lengths).drop (j + 1)).flatMap (fun tl => List.replicate tl.2 tl.1)
+
+theorem flatMap_replicate_length : ∀ (ts ls : List Nat), ts.length = ls.length →
+    ((ts.zip ls).flatMap (fun tl => List.replicate tl.2 tl.1)).length = ls.sum := by
+  intro ts
+  induction ts with
+  | nil => intro ls h; cases ls with
+    | nil => rfl
+    | cons _ _ => simp at h
+  | cons t ts ih =>
+    intro ls h
+    cases ls with
+    | nil => simp at h
+    | cons l ls =>
+      simp only [List.zip_cons_cons, List.flatMap_cons, List.length_append, List.length_replicate, List.sum_cons]
+      rw [ih ls (by simpa using h)]
+
+theorem drop_zip' : ∀ (n : Nat) (a b : List Nat), (a.zip b).drop n = (a.drop n).zip (b.drop n)
+  | 0, _, _ => rfl
+  | _ + 1, [], _ => by simp
+  | _ + 1, _ :: _, [] => by simp
+  | n + 1, _ :: as, _ :: bs => by simp [drop_zip' n as bs]
+
+theorem remTypes_length (s : BSplit) (h : SplitOK s) (j rem : Nat) : (remTypes s j rem).length = budget s j rem := by
+  unfold remTypes budget
+  rw [List.length_append, List.length_replicate, drop_zip',
+    flatMap_replicate_length _ _ (by rw [List.length_drop, List.length_drop, h.nl])]
+
+/-- writer's `BlockEncoder` and reader's category in lock step, at block `j`; `mult` is the factor
+of `entropy_ix_` (`histogram_length_`, or `1 << context_bits`) -/
+structure EncInv (s : BSplit) (mult : Nat) (e : BEnc) (cat : Cat) (j : Nat) : Prop where
+  split : e.split = s
+  ix : e.blockIx = j
+  ci : CatInv s e.code cat j
+  cnt : 2 ≤ s.numTypes → cat.count = e.blockLen
+  ent : e.entropyIx = s.types.getD j 0 * mult
+  le : e.blockLen ≤ 2 ^ 24
+
+def BEnc.atBlock (e : BEnc) (j len ent : Nat) (c : BSCode) : BEnc :=
+  { e with blockIx := j, blockLen := len, entropyIx := ent, code := c }
+
+theorem adv_step (s : BSplit) (h : SplitOK s) (mult : Nat) (e : BEnc) (cat : Cat) (j : Nat) (shift : Option Nat)
+    (hE : EncInv s mult e cat j)
+    (hmS : ∀ cb, shift = some cb → mult = 2 ^ cb) (hmN : shift = none → mult = e.histLen) (hm : 256 * mult < two64)
+    (hb : 1 ≤ budget s j e.blockLen) :
+    ∃ bits e' cat' j', (∀ w, e.adv shift w = .ok (e', w ++ bits)) ∧
+      (∀ rest, cat.next (bits ++ rest) = some (cat', rest)) ∧ EncInv s mult e' cat' j' ∧
+      budget s j' e'.blockLen + 1 = budget s j e.blockLen ∧
+      remTypes s j e.blockLen = s.types.getD j' 0 :: remTypes s j' e'.blockLen ∧
+      e'.depths = e.depths ∧ e'.bits = e.bits ∧ e'.histLen = e.histLen := by
+  have p24 : (2 : Nat) ^ 24 = 16777216 := by decide
+  have hle := hE.le
+  by_cases h0 : e.blockLen = 0
+  · -- a block switch
+    have hj : j + 1 < s.types.length := by
+      rcases Nat.lt_or_ge (j + 1) s.types.length with hlt | hge
+      · exact hlt
+      · exfalso
+        have : s.lengths.drop (j + 1) = [] := List.drop_eq_nil_of_le (by rw [h.nl]; exact hge)
+        unfold budget at hb; rw [this, h0] at hb; simp at hb
+    have h2 := hE.ci.two h hj
+    obtain ⟨l1, l2⟩ := h.len (j + 1) hj
+    have htl := h.tlt (j + 1) hj
+    have hnt := h.nt
+    obtain ⟨b1, e1, r1, i1⟩ := switch_step s h e.code cat j hE.ci hj (by rw [hE.cnt h2]; exact h0)
+    have hix : (e.blockIx + 1) % two64 = j + 1 := by
+      rw [hE.ix]; exact Nat.mod_eq_of_lt (by have := h.cap; unfold two64; omega)
+    have hent : ∀ sh : Option Nat, sh = shift → (match sh with
+        | some cb => (s.types.getD (j + 1) 0 * 2 ^ cb) % two64
+        | none => (s.types.getD (j + 1) 0 * e.histLen) % two64) = s.types.getD (j + 1) 0 * mult := by
+      intro sh hsh
+      have hlt : s.types.getD (j + 1) 0 * mult < two64 :=
+        Nat.lt_of_le_of_lt (Nat.mul_le_mul_right _ (by omega)) hm
+      cases sh with
+      | some cb => simp only; rw [← hmS cb hsh.symm]; exact Nat.mod_eq_of_lt hlt
+      | none => simp only; rw [← hmN hsh.symm]; exact Nat.mod_eq_of_lt hlt
+    have hdec : (s.lengths.getD (j + 1) 0 + two64 - 1) % two64 = s.lengths.getD (j + 1) 0 - 1 := by
+      have : s.lengths.getD (j + 1) 0 + two64 - 1 = (s.lengths.getD (j + 1) 0 - 1) + two64 := by omega
+      rw [this, Nat.add_mod_right, Nat.mod_eq_of_lt (by unfold two64; omega)]
+    refine ⟨b1, e.atBlock (j + 1) (s.lengths.getD (j + 1) 0 - 1) (s.types.getD (j + 1) 0 * mult)
+        (e.code.switched (s.types.getD (j + 1) 0)),
+      cat.switched (s.types.getD (j + 1) 0) (s.lengths.getD (j + 1) 0), j + 1, ?_, r1, ?_, ?_, ?_, rfl, rfl, rfl⟩
+    · intro w
+      unfold BEnc.adv BEnc.switchIfNeeded
+      rw [if_pos h0, hix, hE.split]
+      simp only []
+      rw [getAt_getD s.lengths _ (by rw [h.nl]; exact hj), Out.bind_ok,
+        getAt_getD s.types _ hj, Out.bind_ok, e1, Out.bind_ok]
+      simp only [Out.bind_ok]
+      rw [hdec]
+      cases shift with
+      | some cb => have := hent (some cb) rfl; simp only at this ⊢; rw [this]; unfold BEnc.atBlock; rw [hE.split]
+      | none => have := hent none rfl; simp only at this ⊢; rw [this]; unfold BEnc.atBlock; rw [hE.split]
+    · exact ⟨hE.split, rfl, i1, fun _ => rfl, rfl, by show s.lengths.getD (j + 1) 0 - 1 ≤ 2 ^ 24; omega⟩
+    · unfold budget
+      rw [h0]
+      have : s.lengths.drop (j + 1) = s.lengths.getD (j + 1) 0 :: s.lengths.drop (j + 1 + 1) := by
+        have hl : j + 1 < s.lengths.length := by rw [h.nl]; exact hj
+        rw [List.drop_eq_getElem_cons hl, List.getD_eq_getElem?_getD, List.getElem?_eq_getElem hl]; rfl
+      rw [this, List.sum_cons]
+      show s.lengths.getD (j + 1) 0 - 1 + _ + 1 = _
+      omega
+    · unfold remTypes
+      rw [h0, List.replicate_zero, List.nil_append, zip_drop s h (j + 1) hj, List.flatMap_cons]
+      show _ = _ :: (List.replicate (s.lengths.getD (j + 1) 0 - 1) _ ++ _)
+      obtain ⟨l', hl'⟩ : ∃ l', s.lengths.getD (j + 1) 0 = l' + 1 := ⟨s.lengths.getD (j + 1) 0 - 1, by omega⟩
+      rw [hl', List.replicate_succ, Nat.add_sub_cancel]
+      rfl
+  · -- inside a block
+    have hdec : (e.blockLen + two64 - 1) % two64 = e.blockLen - 1 := by
+      have : e.blockLen + two64 - 1 = (e.blockLen - 1) + two64 := by omega
+      rw [this, Nat.add_mod_right, Nat.mod_eq_of_lt (by unfold two64; omega)]
+    refine ⟨[], { e with blockLen := e.blockLen - 1 },
+      (if cat.nbl < 2 then cat else { cat with count := cat.count - 1 }), j, ?_, ?_, ?_, ?_, ?_, rfl, rfl, rfl⟩
+    · intro w
+      unfold BEnc.adv BEnc.switchIfNeeded
+      rw [if_neg h0, Out.bind_ok]
+      simp only
+      rw [hdec, List.append_nil]
+    · intro rest
+      unfold Cat.next
+      by_cases hn : cat.nbl < 2
+      · rw [if_pos hn, if_pos hn]; rfl
+      · rw [if_neg hn, if_neg hn, if_pos (by rw [hE.cnt (by rw [← hE.ci.nbl]; omega)]; exact h0)]; rfl
+    · by_cases hn : cat.nbl < 2
+      · rw [if_pos hn]
+        exact ⟨hE.split, hE.ix, hE.ci, fun h2 => by rw [← hE.ci.nbl] at h2; omega, hE.ent,
+          by show e.blockLen - 1 ≤ 2 ^ 24; omega⟩
+      · rw [if_neg hn]
+        exact ⟨hE.split, hE.ix, hE.ci.setCount _, fun h2 => by
+            show cat.count - 1 = e.blockLen - 1
+            rw [hE.cnt h2], hE.ent, by show e.blockLen - 1 ≤ 2 ^ 24; omega⟩
+    · unfold budget
+      show e.blockLen - 1 + _ + 1 = _
+      omega
+    · unfold remTypes
+      show _ = _ :: (List.replicate (e.blockLen - 1) _ ++ _)
+      obtain ⟨l', hl'⟩ : ∃ l', e.blockLen = l' + 1 := ⟨e.blockLen - 1, by omega⟩
+      rw [hl', List.replicate_succ, Nat.add_sub_cancel]
+      rfl
+
 end BV.MetaBlock
